@@ -1307,6 +1307,15 @@ func (x *Exec) havocLocation(env *Env, c *Clause) {
 			panic(r)
 		}
 	}()
+	if ce, ok := c.Expr.(*ast.CallExpr); ok && identName(ce.Fun) == "except" {
+		// except(pkg, ...): anything may change except the state of types declared in the listed packages
+		pkgs := x.eng.exceptPkgs(env.pkgPath, ce)
+		if pkgs == nil {
+			env.fail("cannot resolve %s", c.Src)
+		}
+		x.havocExcept(st, pkgs)
+		return
+	}
 	if ce, ok := c.Expr.(*ast.CallExpr); ok && (identName(ce.Fun) == "all" || identName(ce.Fun) == "elems") {
 		ks := x.eng.allKeysOf(env.pkgPath, ce)
 		if len(ks) == 0 {
